@@ -36,12 +36,12 @@ class Ctx:
         self._facts = {}
 
     # -- facts
-    def load(self, crates=None):
-        key = tuple(sorted(crates)) if crates is not None else None
+    def load(self, crates=None, adts_only=()):
+        key = (tuple(sorted(crates)) if crates is not None else None, tuple(sorted(adts_only)))
         if key not in self._facts:
             if self.facts_dir is None:
                 self.facts_dir, self.facts_info = factsmod.ensure_facts()
-            self._facts[key] = Facts(self.facts_dir, crates)
+            self._facts[key] = Facts(self.facts_dir, crates, adts_only=adts_only)
         return self._facts[key]
 
     def src(self, rel):
@@ -124,19 +124,21 @@ def run_check(prop, tier, seed, only=None):
         broken = "%s: %s" % (type(e).__name__, e)
     except Exception:
         broken = "rule set crashed:\n" + traceback.format_exc()
-    if broken is None:
-        for name, count, minimum in ctx.floors:
-            if count < minimum:
-                broken = "floor: %s has %d instances, expected at least %d" % (name, count, minimum)
-                break
-    if broken is None:
-        for name, fired in ctx.controls:
-            if not fired:
-                broken = "positive control stayed silent: %s" % name
-                break
     if broken is not None:
         print("CHECK-BROKEN: property=%s %s" % (prop, broken))
         return 2
+    # floors and positive controls gate the *pass* verdict only: a failing rule instance is reported
+    # as a violation even if a control could not be evaluated on this (possibly already broken) tree
+    soft_broken = None
+    for name, count, minimum in ctx.floors:
+        if count < minimum:
+            soft_broken = "floor: %s has %d instances, expected at least %d" % (name, count, minimum)
+            break
+    if soft_broken is None:
+        for name, fired in ctx.controls:
+            if not fired:
+                soft_broken = "positive control stayed silent: %s" % name
+                break
 
     known, fixed = load_known()
     failing = [o for o in ctx.obligations if not o["ok"]]
@@ -162,6 +164,11 @@ def run_check(prop, tier, seed, only=None):
         print("VIOLATION property=%s replay=%s" % (prop, rp))
     if only is not None:
         return 1 if violations else 0
+    if soft_broken is not None and not violations:
+        print("CHECK-BROKEN: property=%s %s" % (prop, soft_broken))
+        return 2
+    if soft_broken is not None:
+        ctx.notes.append("not a clean run: " + soft_broken)
 
     n_ob = len(ctx.obligations)
     n_ok = sum(1 for o in ctx.obligations if o["ok"])
